@@ -3,7 +3,7 @@ CONSTANTS
   MaxIdx = 4
   MaxTerm = 1
   MaxAppend = 4
-  MaxCuts = 1
+  MaxCuts = 2
   MaxDamage = 1
   W_EntiAlways = FALSE
   MaxReady = 4
